@@ -210,7 +210,11 @@ func pMuts(b pBase) []pMut {
 	add("nonce+1", func(s *pSpec) bool { s.Nonce.Add(s.Nonce, big.NewInt(1)); return fits(s.Nonce) })
 	add("nonce-1", func(s *pSpec) bool { s.Nonce.Sub(s.Nonce, big.NewInt(1)); return fits(s.Nonce) })
 	add("nonce<<8", func(s *pSpec) bool { s.Nonce.Lsh(s.Nonce, 8); return fits(s.Nonce) && s.Nonce.Sign() > 0 })
-	add("nonce>>8", func(s *pSpec) bool { o := new(big.Int).Set(s.Nonce); s.Nonce.Rsh(s.Nonce, 8); return o.Cmp(s.Nonce) != 0 })
+	add("nonce>>8", func(s *pSpec) bool {
+		o := new(big.Int).Set(s.Nonce)
+		s.Nonce.Rsh(s.Nonce, 8)
+		return o.Cmp(s.Nonce) != 0
+	})
 	add("nonce^top", func(s *pSpec) bool { s.Nonce.Xor(s.Nonce, new(big.Int).Lsh(big.NewInt(1), 255)); return true })
 	add("ledger", func(s *pSpec) bool { s.Ledger = !s.Ledger; return true })
 	add("virtual", func(s *pSpec) bool { s.Virtual = !s.Virtual; return true })
@@ -366,8 +370,8 @@ func encodeParamsRaw(p *channel.Params, nonce []byte) []byte {
 // bareApp has a definition but is neither a StateApp nor an ActionApp.
 type bareApp struct{}
 
-func (bareApp) Def() channel.AppID       { return fx.PayApp.Def() }
-func (bareApp) NewData() channel.Data    { return channel.NoData() }
+func (bareApp) Def() channel.AppID    { return fx.PayApp.Def() }
+func (bareApp) NewData() channel.Data { return channel.NoData() }
 
 type cCase struct {
 	name   string
@@ -523,21 +527,27 @@ func (a *addr1) Equal(b wallet.Address) bool {
 
 type wb1 struct{}
 
-func (wb1) NewAddress() wallet.Address            { return &addr1{&simwallet.Address{}} }
-func (wb1) DecodeSig(io.Reader) (wallet.Sig, error) { return nil, errors.New("backend 1 has no signatures") }
+func (wb1) NewAddress() wallet.Address { return &addr1{&simwallet.Address{}} }
+func (wb1) DecodeSig(io.Reader) (wallet.Sig, error) {
+	return nil, errors.New("backend 1 has no signatures")
+}
 func (wb1) VerifySignature([]byte, wallet.Sig, wallet.Address) (bool, error) {
 	return false, errors.New("backend 1 has no signatures")
 }
 
 type cb1 struct{}
 
-func (cb1) CalcID(*channel.Params) (channel.ID, error) { return channel.ID{}, errors.New("backend 1 computes no IDs") }
-func (cb1) Sign(wallet.Account, *channel.State) (wallet.Sig, error) { return nil, errors.New("backend 1") }
+func (cb1) CalcID(*channel.Params) (channel.ID, error) {
+	return channel.ID{}, errors.New("backend 1 computes no IDs")
+}
+func (cb1) Sign(wallet.Account, *channel.State) (wallet.Sig, error) {
+	return nil, errors.New("backend 1")
+}
 func (cb1) Verify(wallet.Address, *channel.State, wallet.Sig) (bool, error) {
 	return false, errors.New("backend 1")
 }
-func (cb1) NewAsset() channel.Asset            { return &simchannel.Asset{} }
-func (cb1) NewAppID() (channel.AppID, error)   { return nil, errors.New("backend 1 has no apps") }
+func (cb1) NewAsset() channel.Asset          { return &simchannel.Asset{} }
+func (cb1) NewAppID() (channel.AppID, error) { return nil, errors.New("backend 1 has no apps") }
 
 var backend1 bool
 
